@@ -465,6 +465,11 @@ func runC16(c *fw.Ctx) {
 					{gcH}, {gcM}, {gcH, gcH}, {gcH, wr, gcH}, {gcH, wr, gcM}, {gcM, gcH},
 					{gcH, {Kind: "SetClock", Clock: c16Clock + 5_000_000}, gcH}, // later server clock, table not written: optional
 					{gcH, rd, gcM},
+					// a server clock between two milliseconds (cell timestamps are whole milliseconds, the clock is not): the
+					// cell exactly at the millisecond cut-off is older than now - max_age
+					{{Kind: "SetClock", Clock: c16Clock + 500}, gcH},
+					{{Kind: "SetClock", Clock: c16Clock + 999}, gcH},
+					{{Kind: "SetClock", Clock: c16Clock - 1}, gcH},
 				}
 				adv := bt.Op{Kind: "Advance", Adv: int64(time.Hour)}
 				noReadProgs := [][]bt.Op{
